@@ -105,6 +105,16 @@ def weight_patterns(n, rich):
                 yield tuple(vals[i] for i in idx), "".join(names[i] for i in idx)
 
 
+def wide_weight_patterns(n):
+    """Weights spread over many orders of magnitude (1e-13, 1, 1e5): a weight is a number like any other - it may be
+    tiny next to its neighbours without being zero.  Exact clause only (the float clause's 1e-6 is about lambda)."""
+    vals = [F(0), F(1, 10 ** 13), F(1), F(10 ** 5)]
+    names = ["0", "e", "1", "K"]
+    for idx in itertools.product(range(4 if n <= 5 else 3), repeat=n):
+        if sum(1 for i in idx if i) >= 2 and any(i == 1 for i in idx):
+            yield tuple(vals[i] for i in idx), "".join(names[i] for i in idx)
+
+
 def check_one(n, w, wname, lamf, ys, p, exact=True, floatc=True):
     """One (n, w, lambda): all right-hand sides at once."""
     m = _mod()
@@ -282,6 +292,9 @@ def run(ctx):
         size = 8 if n >= 9 else 40
         for chunk in sse.chunked(pats, size):
             tasks.append((n, chunk, ctx.seed, True, True))
+    for n in (4, 5, 6):
+        for chunk in sse.chunked(list(wide_weight_patterns(n)), 40):
+            tasks.append((n, chunk, ctx.seed, True, False))
     tasks.sort(key=lambda t: -t[0])
     ctx.pmap(_task, tasks)
     ctx.note("n_range", [4, maxn])
@@ -319,7 +332,7 @@ def replay(sub, case, p):
 def replay_finding(f, p):
     m = f["match"]
     if f.get("subcheck") == "float":
-        names = {"0": F(0), "t": F(1, 3), "1": F(1), "2": F(2)}
+        names = {"0": F(0), "t": F(1, 3), "1": F(1), "2": F(2), "e": F(1, 10 ** 13), "K": F(10 ** 5)}
         w = tuple(names[ch] for ch in m["w"])
         check_one(m["n"], w, m["w"], float(m["lambda"]), y_vectors(m["n"], 0), p, exact=False, floatc=True)
     elif f.get("subcheck") == "float_long":
